@@ -84,6 +84,8 @@ impl RecursionStack {
     #[verifier::external_body]
     pub fn with_root(root: Name) -> (r: Self) ensures r.path@ == seq![root], r.limit@ == 32 { unimplemented!() }
     #[verifier::external_body]
+    pub fn with_limit(self, limit: usize) -> (r: Self) ensures r.path@ == self.path@, r.limit@ == limit { unimplemented!() }
+    #[verifier::external_body]
     pub fn guard(&mut self) -> (r: RecursionGuard<'_>) ensures r.path@ == old(self).path@, r.limit@ == old(self).limit@ { unimplemented!() }
 }
 impl RecursionGuard<'_> {
